@@ -6,6 +6,6 @@ CONSTANTS
   Flags = {"D", "S", "F"}
   MaxCmds = 12
   Menu = {"select", "close", "noop", "store", "fetch", "expunge", "append", "move", "copy"}
-  Devs = {"CloseRONo", "RecentToOwnRO", "MoveIgnoresRO"}
+  Devs = {"CloseRONo", "MoveIgnoresRO"}
 CONSTRAINT Constr
 CHECK_DEADLOCK FALSE
